@@ -274,22 +274,65 @@ def judge(res, text, offset, n, g_mark):
 import re as _stdre
 
 
-def word_class(cu, text):
+_JD, _JD2, _JR = '一二三四五六七八九', '二三四五六七八九', '十百千万億'
+_FR_CENT_COMPOUND = _stdre.compile(r'^cent (vingt|trente|quarante|cinquante|soixante|quatre-vingt)(-| et )(?!dix( |$))')
+
+
+def ja_shape(text):
+    """Which of the three recorded ja-jp defects a numeral with 万 / 億 can hit (audit item 5: the recorded `man` / `oku`
+    signatures used to exempt EVERY numeral with 万 / 億).  Read off the numeral's text only:
+    round-run   the text is a sequence of chunks <digits><round characters>; JapaneseNumericWithUnit's NotSingleRegex
+                takes one or two round characters in the first chunk and at most one in the later ones — a later chunk
+                with two (二百|二十万, 一万四千|百) or a first chunk with three is not extracted (no-entity / span);
+    bare-after  a round character directly after a LARGER one, the digit in front of the run being 2..9 (二万千, 五百十,
+                二十万千): CJKNumberParser.get_int_value reuses that digit for the bare unit (value);
+    gap-scale   <百|千><digit><万|億> (八百三万): the digit is read one unit below the round character in front (830万; value).
+    '' = none of them: such a numeral is demanded like any other (class `man-plain` / `oku-plain`, recorded nowhere)."""
+    ch = [c for c in _stdre.findall('[%s]*[%s]*' % (_JD, _JR), text) if c]
+    ks = [len([x for x in c if x in _JR]) for c in ch]
+    out = []
+    if text[:1] in _JD and ks and (ks[0] > 2 or any(k >= 2 for k in ks[1:])):
+        out.append('round-run')
+    for m in _stdre.finditer('[%s]([%s]{2,})' % (_JD2, _JR), text):
+        run = [_JR.index(x) for x in m.group(1)]
+        if any(a > b for a, b in zip(run, run[1:])):
+            out.append('bare-after')
+            break
+    if _stdre.search('[百千][%s][万億]' % _JD, text):
+        out.append('gap-scale')
+    return out
+
+
+def word_class(cu, text, in_sentence=True, bad=None):
     """The word class a recorded finding is keyed by (so that a different defect of the same culture is not hidden
-    behind a recorded signature)."""
+    behind a recorded signature).  A recorded class is as narrow as the defect: the sub-families that pass today
+    (`compound-other`, `man-plain`, `oku-plain`, a `man` / `oku` failure of a kind the numeral's shape does not explain)
+    are recorded nowhere, so a failure there is a new violation."""
     if cu == 'fr-fr':
-        return 'plural-cents' if 'cents' in text else 'compound' if ('-' in text or ' et ' in text) else 'other'
+        if 'cents' in text:
+            return 'plural-cents'
+        if '-' in text or ' et ' in text:
+            # the recorded family: `cent <tens>-<unit>` / `cent <tens> et un` at the START of the numeral, inside a sentence,
+            # splits after the tens word (alone, after `mille`, and `cent soixante-dix [mille …]` are fine today)
+            return 'compound' if (in_sentence and _FR_CENT_COMPOUND.match(text)) else 'compound-other'
+        return 'other'
     if cu == 'it-it':
         return 'accented-tre' if 'tré' in text else 'other'
     if cu == 'pt-br':
         return 'catorze' if 'catorze' in text else 'other'
     if cu == 'ja-jp':
+        scale = 'oku' if '億' in text else 'man' if '万' in text else None
+        if scale:
+            shape = ja_shape(text)
+            if not shape:
+                return scale + '-plain'
+            if (bad in ('no-entity', 'span') and 'round-run' not in shape) or (
+                    bad == 'value' and 'bare-after' not in shape and 'gap-scale' not in shape):
+                return scale + '-' + '+'.join(shape)      # a failure of a kind the numeral's shape does not explain
         if _stdre.search(r'(^|[百千万億])十', text):
             return 'bare-ten'
-        if '億' in text:
-            return 'oku'
-        if '万' in text:
-            return 'man'
+        if scale:
+            return scale
         if _stdre.search(r'(^|[千万億])百|(^|[万億])千', text):
             return 'bare-unit'
         return 'other'
@@ -407,7 +450,7 @@ def pipeline_other(ctx):
             ctx.nontriv((cu, q))
         bad, detail = judge(res, text, off, n, None)
         if bad:
-            ctx.report('property', '%s:cardinal:%s:%s' % (cu, word_class(cu, text), bad), 'number(%r, %s): %s' % (q, cu, detail),
+            ctx.report('property', '%s:cardinal:%s:%s' % (cu, word_class(cu, text, q != text, bad), bad), 'number(%r, %s): %s' % (q, cu, detail),
                        failing_input={'culture': cu, 'model': 'number', 'query': q, 'numeral': text, 'denotes': n,
                                       'result': res}, property_fails=True)
 
@@ -439,7 +482,7 @@ def pipeline_big(ctx):
         if bad:
             cls = 'mil-millones' if 'mil millones' in text else scale_word(text)
             sig = '%s:cardinal-scale:%s:%s' % (cu, cls, bad)
-            if cu == 'fr-fr' and bad == 'split' and word_class(cu, text) == 'compound':
+            if cu == 'fr-fr' and bad == 'split' and word_class(cu, text, q != text, bad) == 'compound':
                 sig = 'fr-fr:cardinal:compound:split'      # the recorded family: a compound after `cent` in a sentence
             ctx.report('property', sig, 'number(%r, %s): %s' % (q, cu, detail),
                        failing_input={'culture': cu, 'model': 'number', 'query': q, 'numeral': text, 'denotes': n,
